@@ -199,6 +199,7 @@ func floaterRunX(id int, name string, disc *model3d.Mesh, weighting string, bnd 
 	if stretch != nil {
 		rec.Site = fmt.Sprintf("StretchMinimizingParameterization:%s:%s:iters=%d:eta=%g", weighting, bnd, stretch.iters, stretch.eta)
 	}
+	degenerateUV := false
 	outcome, pan := withDeadline(60*time.Second, func() {
 		var boundary *model3d.CoordMap[model2d.Coord]
 		switch bnd {
@@ -268,6 +269,28 @@ func floaterRunX(id int, name string, disc *model3d.Mesh, weighting string, bnd 
 		}
 		var param *model3d.CoordMap[model2d.Coord]
 		if stretch != nil {
+			// A boundary that is convex but not strictly so (the square) can force an interior vertex onto a side:
+			// its triangles are then degenerate in the plane in exact arithmetic, their stretch is unbounded and the
+			// re-weighting has nothing to work with.  Such discs (which ones depends on how the charts were cut) are
+			// found by a plain Floater97 solve with a copy of the weights and are not put to the routine.
+			wcopy := model3d.NewEdgeMap[float64]()
+			weights.Range(func(k [2]model3d.Coord3D, v float64) bool {
+				wcopy.Store(k, v)
+				return true
+			})
+			first := model3d.Floater97(disc, boundary, wcopy, solver)
+			disc.Iterate(func(t *model3d.Triangle) {
+				a, b, c := first.Value(t[0]), first.Value(t[1]), first.Value(t[2])
+				_, b0 := boundary.Load(t[0])
+				_, b1 := boundary.Load(t[1])
+				_, b2 := boundary.Load(t[2])
+				if !(b0 && b1 && b2) && math.Abs((b.X-a.X)*(c.Y-a.Y)-(b.Y-a.Y)*(c.X-a.X)) < 1e-7 {
+					degenerateUV = true
+				}
+			})
+			if degenerateUV {
+				return
+			}
 			// the weight maps of the library's own constructors as they are (they carry entries centred on boundary
 			// vertices, which no solve reads)
 			param = model3d.StretchMinimizingParameterization(disc, boundary, weights, solver, stretch.iters, stretch.eta, false)
@@ -308,8 +331,10 @@ func floaterRunX(id int, name string, disc *model3d.Mesh, weighting string, bnd 
 			cr := (b.X-a.X)*(c.Y-a.Y) - (b.Y-a.Y)*(c.X-a.X)
 			if math.IsNaN(cr) {
 				rec.NoFlip = false
-			} else if math.Abs(cr) < 1e-12 {
-				// degenerate (e.g. three boundary vertices on one side of the square): not a flip
+			} else if math.Abs(cr) < 1e-7 {
+				// degenerate (three vertices on one side of the square - boundary vertices, or an interior vertex all of
+				// whose neighbours lie on that side): zero area in exact arithmetic, a sign of either kind from a solver
+				// that is accurate to about 1e-9; not a flip
 			} else if sign == 0 {
 				sign = cr
 			} else if (sign > 0) != (cr > 0) {
@@ -319,6 +344,9 @@ func floaterRunX(id int, name string, disc *model3d.Mesh, weighting string, bnd 
 	})
 	if outcome != "ok" {
 		rec.Panic = outcome + " " + pan
+	}
+	if degenerateUV {
+		rec.Note = "not decided: the boundary forces a triangle with an interior vertex to zero area"
 	}
 	return rec
 }
